@@ -107,6 +107,14 @@ def run(chk):
     for (a, b) in rng.sample(pairs, 60):
         add("nan", NAN, [F(a)], qtylib.f2bits(1.0), [F(b)])
         add("nan", qtylib.f2bits(2.0), [F(a)], NAN, [F(b)])
+    # special magnitudes for EVERY ordered pair: signed zeros, subnormals, infinities, NaN, values that
+    # underflow to +-0 after conversion
+    SPECIALS = [-0.0, 0.0, 5e-324, -5e-324, 1e-310, -1e-310, float("inf"), float("-inf"), float("nan"), 1e300, -1e300]
+    for (a, b) in pairs:
+        ua, ub = [F(a)], [F(b)]
+        z = rng.choice([(-0.0, 0.0), (0.0, -0.0), (-0.0, -0.0)])
+        add("special-zero", qtylib.f2bits(z[0]), ua, qtylib.f2bits(z[1]), ub)
+        add("special", qtylib.f2bits(rng.choice(SPECIALS)), ua, qtylib.f2bits(rng.choice(SPECIALS)), ub)
     gen = qtylib.Gen(rng, tbl)
     for _ in range(150 if quick else 1500):
         ua = gen.unit()
@@ -121,9 +129,13 @@ def run(chk):
         sa, sb = qtylib.spell_unit(tbl, ua, rng), qtylib.spell_unit(tbl, ub, rng)
         if sa is None or sb is None:
             continue
-        va, vb = rng.choice(mags), rng.choice(mags + ["NaN"])
+        if rng.random() < 0.4:
+            va, vb = rng.choice([(-0.0, 0.0), (0.0, -0.0), (-0.0, -0.0), (5e-324, -0.0), (0.0, 1e-310)])
+        else:
+            va, vb = rng.choice(mags), rng.choice(mags + ["NaN"])
+        gid = len(srcs)
         for op in ("<", "<=", ">", ">=", "==", "!="):
-            srcs.append(dict(op=op, va=va, ua=ua, vb=vb, ub=ub,
+            srcs.append(dict(op=op, va=va, ua=ua, vb=vb, ub=ub, gid=gid,
                              line="S (%r * %s) %s (%s * %s)" % (va, sa, op, vb if vb == "NaN" else repr(vb), sb)))
 
     lines = [l for c in cases for l in c["lines"]] + [s["line"] for s in srcs]
@@ -162,8 +174,13 @@ def run(chk):
             bad.append(("tri!", "a == b is %s but the ordering of a against b is '%s'" % (e1.b, c1.c)))
         # classification of the operands
         exact = tbl.exact_unit(c["ua"]) and tbl.exact_unit(c["ub"])
+        finite = math.isfinite(va) and math.isfinite(vb)
+        # magnitudes whose conversion can under-/overflow in f64: not an exact-level fact
+        tiny = finite and any(x != 0.0 and (abs(x) < 1e-250 or abs(x) > 1e250) for x in (va, vb))
+        if c1.c in "<=>" and c2.c in "<=>" and (e2.b != (c2.c == "=")):
+            bad.append(("tri!", "b == a is %s but the ordering of b against a is '%s'" % (e2.b, c2.c)))
         near = False
-        if not isnan and math.isfinite(vb) and c["ua"] != c["ub"]:
+        if not isnan and finite and not tiny and c["ua"] != c["ub"]:
             # equal up to rounding (exactly equal included): the f64 answer is decided by rounding
             da = Fraction(va) * Fraction(qtylib.any_scale(tbl, c["ua"]))
             db = Fraction(vb) * Fraction(qtylib.any_scale(tbl, c["ub"]))
@@ -187,7 +204,7 @@ def run(chk):
             else:
                 violations.append((c, why))
         # exact model where the answer is an exact-level fact
-        if exact and not isnan and not near and math.isfinite(vb):
+        if exact and not isnan and not near and finite and not tiny:
             qa_t, qb_t = tbl.coq_q(c["va"], c["ua"]), tbl.coq_q(qb.bits, c["ub"])
             full = (not quick) or n % 4 == 0
             for (fn, x, y, ob) in ((("r_eq", qa_t, qb_t, e1), ("r_eq", qb_t, qa_t, e2), ("r_ne", qa_t, qb_t, ne),
@@ -212,6 +229,8 @@ def run(chk):
             continue
         if not (tbl.exact_unit(s["ua"]) and tbl.exact_unit(s["ub"])):
             continue
+        if any(x != 0.0 and (abs(x) < 1e-250 or abs(x) > 1e250) for x in (s["va"], s["vb"])):
+            continue
         da = Fraction(s["va"]) * tbl.scale(s["ua"])
         db = Fraction(s["vb"]) * tbl.scale(s["ub"])
         if s["ua"] != s["ub"] and qtylib.rel_close(da, db, 1e-13):
@@ -226,6 +245,22 @@ def run(chk):
             items.append(("%s PX_env prelude_n_exact %s %s" % ("r_eq" if s["op"] == "==" else "r_ne", qa_t, qb_t),
                           ob.expected_model_string()))
         idx.append(-1 - k)
+    groups = collections.defaultdict(dict)
+    for sr in srcs:
+        if sr["obs"].kind == "B":
+            groups[sr["gid"]][sr["op"]] = sr["obs"].b
+    for gid, g in groups.items():
+        if len(g) != 6:
+            continue
+        why = None
+        if g["!="] != (not g["=="]):
+            why = "`!=` is not the negation of `==`"
+        elif g["<="] != (g["<"] or g["=="]) or g[">="] != (g[">"] or g["=="]):
+            why = "`<=` / `>=` is not `<` / `>` or `==`: %s" % g
+        elif srcs[gid]["vb"] != "NaN" and [g["<"], g["=="], g[">"]].count(True) != 1:
+            why = "not exactly one of <, ==, > holds: %s" % g
+        if why:
+            violations.append((srcs[gid], why + "   for " + srcs[gid]["line"][2:].replace(" < ", " ? ")))
     bad = qtylib.coq_mismatches(items, "c11", shard_size=400)
     mism = {k: v for k, v in bad.items()}
 
@@ -267,6 +302,7 @@ def run(chk):
         "replica_checked_ties": replica_checked, "replica_mispredictions": replica_wrong,
         "c08_panics_not_judged": panics,
         "model_evaluations": len(items), "model_mismatches": len(mism), "oracle_failures": len(real),
+        "oracle_failure_kinds": dict(collections.Counter(v[0].get("kind", "operator-source") for v in real)),
         "samples": [{"lines": cases[i]["lines"][:5], "implementation": [o.raw for o in cases[i]["obs"][:5]]}
                     for i in (0, len(cases) // 2, len(cases) - 1)] + ([{"line": srcs[0]["line"], "implementation": srcs[0]["obs"].raw}] if srcs else []),
     })
